@@ -70,6 +70,14 @@ def run(prop, tier, replay=None):
     scenarios, states, transitions, mc_info = [], 0, 0, []
     if replay:
         payload = json.load(open(replay))
+        if payload.get("interop"):
+            import interop
+            _, problems = interop.execute([payload["scenario"]], vlib.build_driver("iodrv"))
+            vs = [{"sig": panic_sig(p["output"]), "what": "process died (real client + real gateway)",
+                   "replay": payload} for p in problems if "panic:" in p["output"]]
+            for p in problems:
+                print(p["output"][-1500:])
+            return vlib.verdict(prop, vs)[0]
         scenarios = [payload["scenario"]]
     else:
         per = 120 if tier == "quick" else 2500
@@ -107,6 +115,12 @@ def run(prop, tier, replay=None):
                 client_cov = {"not_evaluated": str(ex)[:300]}
     except ImportError:
         pass
+    # both implementations talking to each other (families/interop.py)
+    interop_cov = None
+    if not replay:
+        import interop
+        iv, interop_cov = interop.crash_half(tier, rnd)
+        violations += iv
     # consume the surviving traces with the trace spec (totality of the model on what the code was given)
     viol, stat, cover, traces = gateway.judge(lines, ["C25"])
     gaps = [v for v in viol if v["tag"].startswith("desync/")]
@@ -119,7 +133,7 @@ def run(prop, tier, replay=None):
                     "-simulate walks) or seeded malformed datagrams; non-trivial = distinct (state, event, post-state) "
                     "combinations reached on the real code; a process death is attributed to the scenario being executed",
                exhaustive=False, mc=mc_info, crashes=len(crashes), model_gaps=len(gaps), steps=stat,
-               client=client_cov, known_findings=n_known)
+               client=client_cov, interop=interop_cov, known_findings=n_known)
     vlib.write_evidence(prop, tier, "model_checking", cov, time.time() - t0, violations=n_new,
                         assumptions=["crash = death of the subprocess executing the schedule",
                                      "the client-library half is executed by families/clientlib.py when present"])
